@@ -6,6 +6,13 @@ namespace Nervus
 
 abbrev Bytes := List UInt8
 
+/-- results are compared in counterexample theorems and by the drivers -/
+instance {ε α : Type} [DecidableEq ε] [DecidableEq α] : DecidableEq (Except ε α)
+  | .ok a, .ok b => if h : a = b then isTrue (by rw [h]) else isFalse (by intro e; cases e; exact h rfl)
+  | .error a, .error b => if h : a = b then isTrue (by rw [h]) else isFalse (by intro e; cases e; exact h rfl)
+  | .ok _, .error _ => isFalse (by intro e; cases e)
+  | .error _, .ok _ => isFalse (by intro e; cases e)
+
 /-- `n` little-endian bytes of `v` (mirrors `to_le_bytes` for `n = 4, 8`). -/
 def leBytes : Nat → Nat → Bytes
   | 0, _ => []
